@@ -85,6 +85,26 @@ fn apply_edit(f: &mut Font, tr: &mut Track, op: &str) {
             // a group without members is a (valid, non-empty) groups map
             f.groups.insert(norad::Name::new("vowels").unwrap(), vec![]);
         }
+        "kp" => {
+            // add a pair, then delete it the obvious way: the first glyph stays behind with no seconds
+            let a = norad::Name::new("A").unwrap();
+            f.kerning.entry(a.clone()).or_default().insert(norad::Name::new("V").unwrap(), -30.0);
+            f.kerning.get_mut(&a).unwrap().remove("V");
+        }
+        "k2" => {
+            f.kerning.insert(norad::Name::new("E").unwrap(), Default::default());
+            f.kerning.entry(norad::Name::new("F").unwrap()).or_default().insert(norad::Name::new("o").unwrap(), -5.0);
+        }
+        "g2" => {
+            f.groups.insert(norad::Name::new("empty.one").unwrap(), vec![]);
+            f.groups.insert(norad::Name::new("full.one").unwrap(), vec![norad::Name::new("a").unwrap()]);
+        }
+        "l2" => {
+            let mut inner = plist::Dictionary::new();
+            inner.insert("n".into(), plist::Value::Dictionary(Default::default()));
+            inner.insert("m".into(), plist::Value::Array(vec![]));
+            f.lib.insert("com.test.nested".into(), plist::Value::Dictionary(inner));
+        }
         "ke" => {
             f.kerning.insert(norad::Name::new("a").unwrap(), Default::default());
         }
@@ -245,8 +265,27 @@ pub fn observe_ext(toks: &[&str], scratch: &Path, fresh: bool) -> String {
         if sabot == 1 || sabot == 5 {
             i.push(("bad.png", b"GIF89a".to_vec()));
         }
-        write_source_tree(&src, rich, &d, &i);
+        let legacy = num(toks, "legacy");
+        // a format 1/2 tree has no guidelines in fontinfo.plist (v3 only)
+        write_source_tree(&src, if legacy != 0 { rich & !16 } else { rich }, &d, &i);
         craft_tree(&src, num(toks, "craft"));
+        if legacy == 1 || legacy == 2 {
+            // a format 1 / 2 UFO that carries data/ and images/ (hand-made or third-party): norad never writes one
+            let mi = src.join("metainfo.plist");
+            let text = std::fs::read_to_string(&mi).unwrap();
+            std::fs::write(&mi, text.replace("<integer>3</integer>", &format!("<integer>{}</integer>", legacy))).unwrap();
+            if legacy == 1 {
+                let _ = std::fs::remove_file(src.join("layercontents.plist"));
+            }
+        }
+        if num(toks, "craft") == 13 {
+            // hand-written kerning.plist whose only first glyph has no seconds
+            std::fs::write(
+                src.join("kerning.plist"),
+                "<?xml version=\"1.0\" encoding=\"UTF-8\"?>\n<plist version=\"1.0\"><dict><key>A</key><dict/></dict></plist>\n",
+            )
+            .unwrap();
+        }
         // what is on disk below data/ and images/ when the font is loaded (independent of norad's own listing)
         for (rel, kind, _) in snapshot(&src) {
             if kind == 'f' {
@@ -313,8 +352,18 @@ pub fn observe_ext(toks: &[&str], scratch: &Path, fresh: bool) -> String {
             }
         }
     }
-    let target: PathBuf = if pre == 5 && load { src.clone() } else { sb.join("o/m/t.ufo") };
-    if !(pre == 5 && load) {
+    // `anc`: 1 or 2 directories ABOVE the target do not exist (the unchanged code refuses with CreateUfoDir)
+    let anc = num(toks, "anc");
+    let target: PathBuf = if pre == 5 && load {
+        src.clone()
+    } else if anc == 1 {
+        sb.join("o/m/exports/t.ufo")
+    } else if anc >= 2 {
+        sb.join("o/m/exports/masters/t.ufo")
+    } else {
+        sb.join("o/m/t.ufo")
+    };
+    if !(pre == 5 && load) && anc == 0 {
         prepare_target(&target, if pre == 5 { 2 } else { pre });
     }
     let trel = target.strip_prefix(&sb).unwrap().to_string_lossy().to_string();
@@ -338,9 +387,54 @@ pub fn observe_ext(toks: &[&str], scratch: &Path, fresh: bool) -> String {
         let same = r == "ok" && r2 == "ok" && snapshot(&target) == snapshot(&fsb.join("f.ufo"));
         extra = format!(" FRESH={}:{}", r2, if same { "same" } else { "diff" });
         rm_rf(&scratch.join("fresh"));
+        if r == "ok" && target.is_dir() {
+            // optional files that are present but hold an EMPTY top-level container (read with the plist crate, not norad)
+            let mut empties: Vec<String> = Vec::new();
+            for (rel, kind, bytes) in snapshot(&target) {
+                if kind != 'f' {
+                    continue;
+                }
+                let name = rel.rsplit('/').next().unwrap_or("");
+                let optional = ["fontinfo.plist", "lib.plist", "groups.plist", "kerning.plist", "layerinfo.plist"].contains(&name);
+                if optional {
+                    if let Ok(v) = plist::Value::from_reader_xml(&bytes[..]) {
+                        if v.as_dictionary().map(|d| d.is_empty()).unwrap_or(false) {
+                            empties.push(rel.clone());
+                        }
+                    }
+                } else if name == "features.fea" && bytes.is_empty() {
+                    empties.push(rel.clone());
+                }
+            }
+            extra.push_str(&format!(" EMPTYFILES={}", if empties.is_empty() { "-".to_string() } else { empties.join(",") }));
+            // the written tree reproduces itself: load it, save that into a fresh path, compare byte for byte
+            let rs = scratch.join("resave");
+            rm_rf(&rs);
+            std::fs::create_dir_all(&rs).unwrap();
+            let res = match guarded(|| Font::load(&target)) {
+                Ok(Ok(f2)) => {
+                    let r3 = save_result_opt(&f2, &rs.join("r.ufo"), num(toks, "wo"));
+                    if r3 != "ok" {
+                        format!("save-{}", r3.replace(':', "-"))
+                    } else if snapshot(&target) == snapshot(&rs.join("r.ufo")) {
+                        "same".to_string()
+                    } else {
+                        let a = snapshot(&target);
+                        let b = snapshot(&rs.join("r.ufo"));
+                        let an: Vec<&String> = a.iter().map(|e| &e.0).collect();
+                        let bn: Vec<&String> = b.iter().map(|e| &e.0).collect();
+                        if an != bn { "diff-paths".to_string() } else { "diff-bytes".to_string() }
+                    }
+                }
+                _ => "load-failed".to_string(),
+            };
+            extra.push_str(&format!(" RESAVE={}", res));
+            rm_rf(&rs);
+        }
     }
     rm_rf(&sb);
-    if pre == 5 && load {
+    if load {
+        extra.push_str(" SRC=o/m/src.ufo");
         let keep: Vec<String> = disk_keys.iter().map(|(k, key)| format!("{}:{}", k, hexs(key))).collect();
         extra.push_str(&format!(" KEEP={}", if keep.is_empty() { "-".to_string() } else { keep.join(",") }));
     }
@@ -480,6 +574,29 @@ pub fn gen(tier: &str, seed: u64, out: &mut dyn Write) {
         for (key, _) in &i {
             emit(out, &scratch, &format!("rich={} load=1 stores={} sabot=0 kinds=0 pre=5 e=ii.{}.x", rng.below(32), stores, hexs(key)));
             emit(out, &scratch, &format!("rich={} load=1 stores={} sabot=0 kinds=0 pre=5 e=", rng.below(32), stores));
+        }
+    }
+    // round 3: format 1 / 2 sources that carry data/ and images/ (in place and elsewhere); an out-of-range guideline
+    // angle combined with every other guideline attribute and position; missing directories above the target
+    for legacy in 1..=2 {
+        for stores in 1..=2 {
+            for &pre in &[5u32, 0, 2] {
+                for &rich in &[0u32, 13] {
+                    emit(out, &scratch, &format!("rich={} load=1 stores={} sabot=0 kinds=0 pre={} legacy={} e=", rich, stores, pre, legacy));
+                }
+            }
+        }
+    }
+    for fi in 20..52 {
+        for &(pre, load) in &[(2u32, 0u32), (5, 1), (0, 1)] {
+            emit(out, &scratch, &format!("rich={} load={} stores=1 sabot=0 kinds=0 pre={} fi={} e=", rng.below(16), load, pre, fi));
+        }
+    }
+    for anc in 1..=2 {
+        for &k in &[0u32, 4, 8] {
+            for load in 0..2 {
+                emit(out, &scratch, &format!("rich={} load={} stores=1 sabot=0 kinds={} pre=0 anc={} e=", rng.below(32), load, k, anc));
+            }
         }
     }
     // in-place histories: tree -> load -> edits -> save onto the source
